@@ -34,3 +34,20 @@ class MealyAcc(py4hw.Logic):
         self.r.put(self.s + self.a.get())
 
 
+
+
+class PopLoop(py4hw.Logic):
+    """a behavioural leaf the transpiler refuses (while loop): a generation request that reaches it raises"""
+
+    def __init__(self, parent, name, a, r):
+        super().__init__(parent, name)
+        self.a = self.addIn('a', a)
+        self.r = self.addOut('r', r)
+
+    def propagate(self):
+        x = self.a.get()
+        n = 0
+        while x:
+            n += x & 1
+            x >>= 1
+        self.r.put(n)
